@@ -77,7 +77,7 @@ def run(R):
     # no XorName metric anywhere
     bad = []
     for b in F.bodies.values():
-        for c in b.calls:
+        for c in b.calls_raw:
             n = c["ncallee"] or ""
             if "cmp_distance" in n or ("BitXor" in n and "XorName" in n) or ("xor_name" in n and n.endswith("::bitxor")):
                 bad.append((b, c))
@@ -88,7 +88,7 @@ def run(R):
     # (2) one conversion
     sites = []
     for b in F.bodies.values():
-        for c in b.calls:
+        for c in b.calls_raw:
             if (c["ncallee"] or "").endswith("Argument::new_debug") and "kbucket::key::Distance" in c["targs"] and "BTreeMap" not in c["targs"]:
                 sites.append((b, c))
     okc = True
@@ -342,7 +342,7 @@ def order_and_endian_rules(R):
     for b in F.bodies.values():
         if b.crate not in ("ant_node", "ant_networking", "ant_protocol") or "::tests::" in b.path or "::test" in b.path.split("::")[-1]:
             continue
-        for c in b.calls:
+        for c in b.calls_raw:
             nc = c["ncallee"] or ""
             if nc.startswith("ruint::") and any(x in nc for x in ("from_be_bytes", "from_be_slice", "to_be_bytes", "from_le_bytes", "from_le_slice", "to_le_bytes", "try_from_le_slice", "try_from_be_slice")):
                 n += 1
